@@ -39,6 +39,7 @@ import XdslModel.Excluded
 import XdslModel.RiscVFrameFloat
 import XdslModel.RawScan
 import XdslModel.SsaNames
+import XdslModel.X86Rules
 /-!
 Model registry for the driver: `MODEL <name>` selects a `(state, lineStep)` pair.
 A continuation-passing encoding is used because the state types differ.
@@ -93,6 +94,7 @@ def run? (name : String) : Option Runner :=
   | "riscv_frame" => some fun k => k RiscV.frameFloatLineStep ()
   | "raw_scan" => some fun k => k RawScan.lineStep ()
   | "ssa_names" => some fun k => k SsaNames.lineStep {}
+  | "x86_rules" => some fun k => k X86.Lower.lineStep ()
   | _ => none
 
 end Xdsl.Registry
